@@ -34,23 +34,27 @@ Theorem C05_dense_out_of_bounds : forall s a at_ ne st rows k, reachable s ->
 Proof. exact dense_out_of_bounds. Qed.
 Print Assumptions C05_dense_out_of_bounds.
 
-(* (full) total map with default: read = pure function of the state; read-after-write; frame; refused writes change
-   nothing; new attributes and cleared attributes read the default at every element index *)
+(* (full) total map with default: read = pure function of the state; read-after-write (`written`: the accepted
+   components converted to the attribute's dtype - strings cut to Type.dtype's fixed width - except that a sparse
+   scalar entry keeps the python object); frame; refused writes change nothing; new and cleared attributes read the
+   default at every element index *)
 Theorem C05_total_map : forall s, reachable s ->
   (forall a k s' w, step s (GetItem a k) = (s', w) ->
                     w = get_obs s a k /\ forall b j, rd s' b j = rd s b j) /\
   (forall a k v s', step s (SetItem a k v) = (s', OOk) ->
                     exists at_ isv l, lookup a (attrs s) = Some at_ /\
                                       sparse_validate (aty at_) (asz at_) v = inr (isv, l) /\
-                                      rd s' a k = Some (map (cast (aty at_)) l) /\
+                                      rd s' a k = Some (written at_ isv l) /\
                                       forall b j, (b, j) <> (a, k) -> rd s' b j = rd s b j) /\
   (forall a k v s' e, step s (SetItem a k v) = (s', OErr e) -> forall b j, rd s' b j = rd s b j) /\
   (forall a t k dense d s', 1 <= k -> step s (Create a t k dense d) = (s', OOk) ->
-                            (forall j, 0 <= j < sn s -> rd s' a j = Some (repeat (cast t (default_of t d)) (Z.to_nat k))) /\
+                            (exists at', lookup a (attrs s') = Some at' /\
+                                         default_row (hp s') at' = repeat (store t (default_of t d)) (Z.to_nat k) /\
+                                         forall j, 0 <= j < sn s -> rd s' a j = Some (unset_read (hp s') at')) /\
                             forall b j, b <> a -> rd s' b j = rd s b j) /\
   (forall a s', step s (ClearAttr a) = (s', OOk) ->
                 exists at_, lookup a (attrs s) = Some at_ /\
-                            (forall j, 0 <= j < sn s -> rd s' a j = Some (default_row (hp s) at_)) /\
+                            (forall j, 0 <= j < sn s -> rd s' a j = Some (unset_read (hp s) at_)) /\
                             forall b j, b <> a -> rd s' b j = rd s b j).
 Proof. exact total_map. Qed.
 Print Assumptions C05_total_map.
@@ -63,18 +67,46 @@ Theorem C05_growth_keeps_values : forall s o s' n l, reachable s -> op_ok o ->
     (forall j, 0 <= j < sn s -> rd s' a j = rd s a j) /\
     (forall j, sn s <= j < sn s' ->
                match ast at_ with Sparse m => lookup j m = None | Dense _ _ _ => True end ->
-               rd s' a j = Some (default_row (hp s) at_)).
+               rd s' a j = Some (unset_read (hp s) at_)).
 Proof. exact growth_keeps_values. Qed.
 Print Assumptions C05_growth_keeps_values.
 
-(* (full) sparse = dense: the same history - writes, reads, growth, clearing, array export, creation, deletion - run
-   with every attribute sparse and with every attribute dense gives the same observations, provided reads and writes
-   address elements of the container *)
-Theorem C05_sparse_dense_agree : forall c h,
-  Forall op_ok h -> Forall shared_op h -> well_addressed 0 h ->
+(* (full) a CornerDataContainer refuses a list with an item it cannot unpack as a whole: nothing changes *)
+Theorem C05_refused_append_changes_nothing : forall s m s' w,
+  corner s = true -> step s (ExtendListBad m) = (s', w) ->
+  w = OGrowErr EUnpack (sn s) (lens (attrs s)) /\ sn s' = sn s /\ attrs s' = attrs s /\ hp s' = hp s.
+Proof. exact refused_append_changes_nothing. Qed.
+Print Assumptions C05_refused_append_changes_nothing.
+
+(* FULL STATEMENT (false of the code, see the two _refuted theorems below):
+     forall c h, Forall op_ok h -> Forall shared_op h -> well_addressed c 0 h ->
+       map pub (snd (run (init c) (map (force false) h))) = map pub (snd (run (init c) (map (force true) h))).
+   (partial) sparse = dense under two guards: every string fits Type.dtype's fixed width (short_op), and every in-place
+   update attr[k][c] = x hits an entry that holds a written vector (updates_hit_written).  Then the same history -
+   creation, deletion, writes, reads, in-place updates, growth of every kind, clearing, array export - run with every
+   attribute sparse and with every attribute dense gives the same observations. *)
+Theorem C05_sparse_dense_agree_partial : forall c h,
+  Forall op_ok h -> Forall shared_op h -> Forall short_op h -> well_addressed c 0 h ->
+  updates_hit_written (init c) h ->
   map pub (snd (run (init c) (map (force false) h))) = map pub (snd (run (init c) (map (force true) h))).
 Proof. exact sparse_dense_agree. Qed.
-Print Assumptions C05_sparse_dense_agree.
+Print Assumptions C05_sparse_dense_agree_partial.
+
+(* (refuted, known finding inplace-update-of-unset-entry) attr[0][0] = 5. on a never-written entry: the dense read is
+   a view and the update is stored, the sparse read is a detached copy of the default and the update is lost *)
+Theorem C05_agree_updates_unset_refuted :
+  exists c h, Forall op_ok h /\ Forall shared_op h /\ Forall short_op h /\ well_addressed c 0 h /\
+              map pub (snd (run (init c) (map (force false) h))) <> map pub (snd (run (init c) (map (force true) h))).
+Proof. exact agree_updates_unset_refuted. Qed.
+Print Assumptions C05_agree_updates_unset_refuted.
+
+(* (refuted, known finding string-longer-than-fixed-width) a 33-character string written to a scalar string attribute:
+   the dense storage keeps 32 characters, the sparse storage all 33 *)
+Theorem C05_agree_long_strings_refuted :
+  exists c h, Forall op_ok h /\ Forall shared_op h /\ well_addressed c 0 h /\ updates_hit_written (init c) h /\
+              map pub (snd (run (init c) (map (force false) h))) <> map pub (snd (run (init c) (map (force true) h))).
+Proof. exact agree_long_strings_refuted. Qed.
+Print Assumptions C05_agree_long_strings_refuted.
 
 (* (full) no aliasing: whatever happens between reading entry (a,i) and updating the value that read handed out,
    the update changes no other entry of any attribute *)
@@ -93,3 +125,63 @@ Print Assumptions C05_no_aliasing.
 Theorem C05_alignment : forall c h, Forall op_ok h -> aligned (fst (run (init c) h)).
 Proof. exact alignment. Qed.
 Print Assumptions C05_alignment.
+
+(* (full) updates through an exported array: dense as_array returns a view, sparse as_array a detached array; an
+   update of element (row, c) of the export changes at most entry (a, row) of the exported attribute and nothing at all
+   for a sparse export *)
+Theorem C05_export_update_frame : forall s r rf row c x,
+  inv s -> nth_error (refs s) r = Some rf ->
+  match rf with
+  | RArr a _ => forall b j, (b, j) <> (a, row) -> rd (fst (step s (MutArr r row c x))) b j = rd s b j
+  | RNone => forall b j, rd (fst (step s (MutArr r row c x))) b j = rd s b j
+  | _ => True
+  end.
+Proof. exact export_update_frame. Qed.
+Print Assumptions C05_export_update_frame.
+
+(* (full) len / iteration / `in`: dense len = len(container) and iteration = as_array = the reads; sparse `in`, len,
+   iteration are about the keys written since creation / clear *)
+Theorem C05_len_iter_contains : forall s a at_, reachable s -> lookup a (attrs s) = Some at_ ->
+  match ast at_ with
+  | Dense ne st rows =>
+      snd (step s (Len a)) = ONat (sn s) /\
+      snd (step s (Iter a)) = ORows rows /\ snd (step s (AsArray a)) = ORows rows /\
+      Z.of_nat (length rows) = sn s /\
+      forall k, 0 <= k < sn s -> rd s a k = Some (nth (Z.to_nat k) rows [])
+  | Sparse m =>
+      NoDup (map fst m) /\
+      snd (step s (Len a)) = ONat (Z.of_nat (length m)) /\
+      snd (step s (Iter a)) = OKeys (map fst m) /\
+      (forall k, snd (step s (Contains a k)) = OBool (match lookup k m with Some _ => true | None => false end)) /\
+      (forall k v s', step s (SetItem a k v) = (s', OOk) ->
+                      exists at' m', lookup a (attrs s') = Some at' /\ ast at' = Sparse m' /\
+                                     forall j, In j (map fst m') <-> j = k \/ In j (map fst m)) /\
+      (forall s', step s (ClearAttr a) = (s', OOk) -> exists at', lookup a (attrs s') = Some at' /\ ast at' = Sparse [])
+  end.
+Proof. exact len_iter_contains. Qed.
+Print Assumptions C05_len_iter_contains.
+
+(* (full) create_attribute(size=...): with size = len(container) it IS the plain dense creation; otherwise the new
+   attribute is `size - len` off and growth keeps exactly that offset *)
+Theorem C05_create_sized : forall s a t k d size,
+  (size = sn s -> step s (CreateSized a t k d size) = step s (Create a t k true d)) /\
+  (forall s', step s (CreateSized a t k d size) = (s', OOk) -> lookup a (attrs s) = None ->
+              exists at' st rows, lookup a (attrs s') = Some at' /\ ast at' = Dense size st rows /\
+                                  length rows = Z.to_nat size) /\
+  (forall at_ ne st rows added, ast at_ = Dense ne st rows ->
+      match ast (expand_attr (hp s) (clock s) added at_) with
+      | Dense ne' _ rows' => ne' - (sn s + added) = ne - sn s /\ (0 <= added -> length rows' = (length rows + Z.to_nat added)%nat)
+      | Sparse _ => False
+      end).
+Proof. exact create_sized. Qed.
+Print Assumptions C05_create_sized.
+
+(* (full) register_array_as_attribute: accepted only for an array with len(container) > 0 rows; the attribute then
+   reads the rows of that array, nothing else moves (and every theorem about reachable states covers what follows) *)
+Theorem C05_register_array : forall s a t k rows d s', reachable s -> op_ok (Register a t k rows d) ->
+  step s (Register a t k rows d) = (s', OOk) -> lookup a (attrs s) = None ->
+  Z.of_nat (length rows) = sn s /\ 0 < sn s /\
+  (forall j, 0 <= j < sn s -> rd s' a j = Some (nth (Z.to_nat j) rows [])) /\
+  (forall b j, b <> a -> rd s' b j = rd s b j) /\ sn s' = sn s.
+Proof. exact register_array. Qed.
+Print Assumptions C05_register_array.
